@@ -32,6 +32,8 @@ def run(prog, tier):
     import p_c05
     p_c05.sync_table_rule(prog, res, rule='load-reconcile')
     CR.reader_refusals_rule(prog, res)
+    CR.primitive_read_rule(prog, res)
+    CR.numeric_payload_rule(prog, res)
     # every record read from the file is inserted with the library's own replace-or-append: a record must
     # only replace the stored record of exactly its name, otherwise it is appended
     import p_c09
